@@ -78,3 +78,10 @@ Definition lexes : str -> list ptok -> Prop := lexes_with (fun _ => follow_ok).
 (* the same with the one adjacency the library additionally tolerates: a dot
    directly after a FloatValue *)
 Definition lexes_slack : str -> list ptok -> Prop := lexes_with follow_impl.
+
+(* no Float token directly before an Ellip token (C01_follow) *)
+Fixpoint nfe (ts : list ptok) : Prop :=
+  match ts with
+  | t1 :: r => match r with t2 :: _ => tk t1 = KFloat -> tk t2 <> KEllip | [] => True end /\ nfe r
+  | [] => True
+  end.
